@@ -1839,7 +1839,7 @@ class Interp:
 
     def call_value(self, fv, args, kwargs, st, n):
         if fv.kind == "maybe":
-            fv = fv.items[0]
+            fv = fv.items[0] if fv.items else V("unk", fv.term, labels=fv.labels, orig=fv.orig)
         if fv.kind == "func":
             f = fv.func
             if isinstance(f, Closure):
